@@ -92,6 +92,14 @@ def is_scalar_expr(e, scalars):
     return False
 
 
+ELEM = "@elem:"
+
+
+def _as_elements(roots):
+    """alias set of a freshly built container whose elements have alias set `roots`"""
+    return {r if r.startswith(ELEM) else ELEM + r for r in roots}
+
+
 class FunctionEffects:
     """Analysis of one (entry) function including its nested defs."""
 
@@ -161,21 +169,22 @@ class FunctionEffects:
                 return set()       # two-argument indexing exists only for matrices: a copy
             base = self.expr_alias(e.value, scope)
             # containers hand out their elements; matrices hand out copies
-            return {r for r in base if r.split(".")[0] in self.containers or r in self.containers}
+            return self._elements(base)
         if isinstance(e, ast.Attribute):
             if getattr(self, "deep_attrs", False) and e.attr not in ("size", "typecode", "name", "T", "H"):
                 return self.expr_alias(e.value, scope)
             return set()
         if isinstance(e, (ast.List, ast.Tuple, ast.Set)):
+            # a display is a new container: only its *elements* may share storage
             out = set()
             for x in e.elts:
                 out |= self.expr_alias(x, scope)
-            return out
+            return _as_elements(out)
         if isinstance(e, ast.Dict):
             out = set()
             for x in e.values:
                 out |= self.expr_alias(x, scope)
-            return out
+            return _as_elements(out)
         if isinstance(e, (ast.ListComp, ast.GeneratorExp, ast.SetComp)):
             # the comprehension's variables alias the elements of the containers they
             # iterate over; the result aliases whatever its element expression aliases
@@ -188,7 +197,7 @@ class FunctionEffects:
                         if isinstance(x, ast.Name):
                             self._comp_env.setdefault(x.id, []).append(el)
                             saved[x.id] = True
-                return self.expr_alias(e.elt, scope)
+                return _as_elements(self.expr_alias(e.elt, scope))
             finally:
                 for nm in saved:
                     self._comp_env[nm].pop()
@@ -222,6 +231,11 @@ class FunctionEffects:
                 return set()
             return set()
         return set()           # arithmetic, unary +/-, comparisons, constants: fresh
+
+    def _elements(self, base):
+        """what indexing / iterating an object with alias set `base` hands out"""
+        return {r for r in base if r.split(".")[0] in self.containers or r in self.containers} | \
+            {r[len(ELEM):] for r in base if r.startswith(ELEM)}
 
     def _comp_elt_may_alias(self, comp):
         elt = comp.elt
@@ -284,7 +298,7 @@ class FunctionEffects:
                                     and len(t.elts) == len(n.value.elts):
                                 pairs += list(zip(t.elts, n.value.elts))
                             elif isinstance(t, (ast.Tuple, ast.List)):
-                                pairs += [(x, n.value) for x in t.elts]
+                                pairs += [(x, ast.Subscript(value=n.value, slice=ast.Constant(value=0), ctx=ast.Load())) for x in t.elts]
                             else:
                                 pairs.append((t, n.value))
                     elif isinstance(n, ast.For):
@@ -412,13 +426,17 @@ class FunctionEffects:
             for n in pf._scope_nodes(s):
                 for tgt, how in self._sink_targets(n, s):
                     al = self.expr_alias(tgt, s)
-                    if isinstance(tgt, ast.Name) or isinstance(tgt, ast.Subscript) or isinstance(tgt, ast.Attribute):
-                        pass
+                    callw = how.startswith("written by")
+                    if callw:
+                        al = al | {r[len(ELEM):] for r in al if r.startswith(ELEM)}   # a callee may write the elements
                     # writing into an element of a container root: x in `dims['q'].append` handled by expr_alias
                     if isinstance(tgt, ast.Subscript) or isinstance(tgt, ast.Name) or True:
                         hit = al & roots
                         if hit:
-                            hit = self._refine(tgt, n, s) & roots
+                            rf = self._refine(tgt, n, s)
+                            if callw:
+                                rf = rf | {r[len(ELEM):] for r in rf if r.startswith(ELEM)}
+                            hit = rf & roots
                         # a Subscript target of a *matrix* root is a copy -> no alias (expr_alias handles)
                         # but `X[...] = v` where X is the root itself must count:
                         for r in hit:
@@ -468,7 +486,7 @@ class FunctionEffects:
         st, kind = cfg.node_stmt[dn], cfg.kind[dn]
         if kind == "iter":
             base = self._refine(st.iter, st, scope, depth + 1)
-            return {r for r in base if r.split(".")[0] in self.containers or r in self.containers}
+            return self._elements(base)
         if isinstance(st, ast.Assign):
             out = set()
             for t in st.targets:
@@ -479,7 +497,7 @@ class FunctionEffects:
                             out |= self._refine(v, st, scope, depth + 1)
                 elif isinstance(t, (ast.Tuple, ast.List)):
                     if any(isinstance(x, ast.Name) and x.id == nm for x in t.elts):
-                        out |= self._refine(st.value, st, scope, depth + 1)
+                        out |= self._refine(st.value, st, scope, depth + 1) | self._elements(self._refine(st.value, st, scope, depth + 1))
                 elif isinstance(t, ast.Name) and t.id == nm:
                     out |= self._refine(st.value, st, scope, depth + 1)
             return out
